@@ -140,10 +140,10 @@ var closerRe = regexp.MustCompile(`^\s*(end|else|elsif|when|in|rescue|ensure|\}|
 // fragment generates an independent fragment and a kind label.
 func genFragment(r *RNG) (string, string) { return genFragmentKind(r, "") }
 
-var fragmentKinds = []string{"assign", "conditional", "narrowing", "block", "array", "union-call", "while", "case", "mixed", "modifier-if", "modifier-unless", "modifier-while", "ends-with-builtin-block", "ends-with-call", "union-operator", "raise", "return-in-block"}
+var fragmentKinds = []string{"assign", "conditional", "narrowing", "block", "array", "union-call", "while", "case", "mixed", "modifier-if", "modifier-unless", "modifier-while", "ends-with-builtin-block", "ends-with-call", "union-operator", "raise", "return-in-block", "begin-value"}
 
 func genFragmentKind(r *RNG, forced string) (string, string) {
-	kinds := []string{"assign", "conditional", "narrowing", "block", "array", "union-call", "while", "case", "mixed", "modifier-if", "modifier-unless", "modifier-while", "ends-with-builtin-block", "ends-with-call", "mixed", "union-operator", "raise", "return-in-block"}
+	kinds := []string{"assign", "conditional", "narrowing", "block", "array", "union-call", "while", "case", "mixed", "modifier-if", "modifier-unless", "modifier-while", "ends-with-builtin-block", "ends-with-call", "mixed", "union-operator", "raise", "return-in-block", "begin-value"}
 	kind := Pick(r, kinds)
 	if forced != "" {
 		kind = forced
@@ -181,6 +181,12 @@ func genFragmentKind(r *RNG, forced string) (string, string) {
 			lines = []string{"zq0 = true", "zq1 = zq0 ? 7 : 2.5", "zq2 = zq1 + 2"}
 		default:
 			lines = []string{"zq0 = true", "zq1 = zq0 ? 7 : 2.5", "zq2 = zq1 - 1", "zq3 = zq1.to_s"}
+		}
+	case "begin-value":
+		// a begin expression whose value is assigned
+		lines = []string{"zq1 = begin", "  1", "rescue", "  2", "end", "zq2 = zq1"}
+		if r.Bool() {
+			lines = []string{"zq1 = begin", "  \"s\"", "end"}
 		}
 	case "raise":
 		lines = []string{"zq1 = 0", Pick(r, []string{"raise \"bad level\" if zq1 == 1", "raise ArgumentError if zq1 > 5", "raise \"never\" unless zq1 == 0"})}
